@@ -2,6 +2,7 @@ package harness
 
 import (
 	"bufio"
+	"bytes"
 	"encoding/json"
 	"fmt"
 	"math/big"
@@ -35,7 +36,7 @@ import (
 
 type c15Input struct {
 	Kind    string    `json:"kind"` // "obs" | "outcome"
-	Mode    string    `json:"mode"` // "valid" | "violate" | "lenient" | "malformed" | "gcstress"
+	Mode    string    `json:"mode"` // "valid" | "violate" | "lenient" | "malformed" | "gcstress" | "encstress"
 	Obs     *JObs     `json:"obs,omitempty"`
 	Outcome *JOutcome `json:"outcome,omitempty"`
 	// Nil: Go renders nil and empty slices differently (null vs []); bit 0 empty
@@ -65,6 +66,7 @@ type c15Impl struct {
 	Obs     *JObs           `json:"obs,omitempty"`
 	Outcome *JOutcome       `json:"outcome,omitempty"`
 	Codec   string          `json:"codec"`         // JSON package behind Decode…, probed: "goccy" | "std"
+	Alias   string          `json:"alias"`         // retained-bytes / retained-value check: what changed after a later Encode or after the input buffer was reused
 	Oob     string          `json:"oob"`           // the explicit-zeros probe (c15ZeroFillProbe) saw a write outside a short [32]byte array
 	UnmOk   bool            `json:"unmOk"`         // lenient: bare goccy Unmarshal succeeded
 	Unm     json.RawMessage `json:"unm,omitempty"` // lenient: that value, canonical
@@ -281,16 +283,26 @@ func c15RunLocal(in c15Input) c15Impl {
 	env := &c15Env{}
 	switch in.Mode {
 	case "valid", "violate":
-		var data []byte
+		// The first encoding is KEPT while a second value of the same encoded
+		// length (c15Twin…) is encoded; only then is the kept slice compared with
+		// the snapshot taken right after the first call and handed to Decode.  A
+		// message must stay what it was for as long as the caller holds it.
+		var data, snap []byte
 		var err error
 		if in.Kind == "obs" {
 			o := c15ObsFromJ(in.Obs, in.Nil)
 			env.addObs(o)
-			data, err = o.Encode()
+			if data, err = o.Encode(); err == nil {
+				snap = append([]byte(nil), data...)
+				c15TwinObs(o).Encode()
+			}
 		} else {
 			o := c15OutcomeFromJ(in.Outcome, in.Nil)
 			env.addOutcome(o)
-			data, err = o.Encode()
+			if data, err = o.Encode(); err == nil {
+				snap = append([]byte(nil), data...)
+				c15TwinOutcome(o).Encode()
+			}
 		}
 		if err != nil {
 			impl.Err, impl.ErrText = "malformed", "encode: "+err.Error()
@@ -298,8 +310,11 @@ func c15RunLocal(in c15Input) c15Impl {
 			impl.Codec = c15Codec()
 			return impl
 		}
-		impl.Text = string(data)
-		c15Decode(in.Kind, data, &impl, nil)
+		impl.Text = string(snap)
+		if !bytes.Equal(data, snap) {
+			impl.Alias = "encode: " + c15FirstDiff(snap, data)
+		}
+		c15DecodeRetained(in.Kind, data, &impl)
 	case "lenient":
 		impl.Text = string(in.Raw)
 		// the first step of Decode…, repeated here to see the value before validation
@@ -323,6 +338,8 @@ func c15RunLocal(in c15Input) c15Impl {
 		impl.Oob = c15ZeroFillProbe(in.Kind, in.Raw)
 	case "gcstress":
 		c15GCStress(in.Kind, &impl)
+	case "encstress":
+		c15EncodeStress(in.Kind, &impl)
 	default:
 		c15Decode(in.Kind, in.Raw, &impl, env)
 		impl.Oob = c15ZeroFillProbe(in.Kind, in.Raw)
@@ -530,6 +547,9 @@ func (b *c15Batch) flush() {
 		if impls[i].Panic != "" {
 			b.em.Hit("crash")
 		}
+		if impls[i].Alias != "" {
+			b.em.Hit("alias")
+		}
 		if b.ins[i].Mode == "malformed" {
 			switch {
 			case impls[i].Panic != "":
@@ -625,7 +645,17 @@ func c15U64(r *Rng) uint64 {
 	return r.U64()
 }
 
+// c15Ext: a log trigger extension; now and then the present-but-all-zero one
+// (what `"LogTriggerExtension":{}` decodes to)
 func c15Ext(r *Rng) *ocr2keepers.LogTriggerExtension {
+	if r.Chance(5) {
+		return &ocr2keepers.LogTriggerExtension{}
+	}
+	return c15ExtNZ(r)
+}
+
+// c15ExtNZ: an extension with a random (hence unique) transaction hash
+func c15ExtNZ(r *Rng) *ocr2keepers.LogTriggerExtension {
 	e := &ocr2keepers.LogTriggerExtension{TxHash: genHash(r), BlockHash: genHash(r), BlockNumber: ocr2keepers.BlockNumber(c15U64(r))}
 	switch r.Intn(4) {
 	case 0:
@@ -641,16 +671,43 @@ func c15Ext(r *Rng) *ocr2keepers.LogTriggerExtension {
 	return e
 }
 
+// c15Pool remembers the log upkeeps of the message under construction so that
+// one upkeep can occur several times with different logs (different work ids):
+// as two performables, in several rounds of proposals, as performable and proposal.
+type c15Pool struct {
+	logs []ocr2keepers.UpkeepIdentifier
+}
+
+func (p *c15Pool) uid(r *Rng, class int) (id ocr2keepers.UpkeepIdentifier, reused bool) {
+	if p != nil && class == 1 && len(p.logs) > 0 && r.Chance(30) {
+		return p.logs[r.Intn(len(p.logs))], true
+	}
+	id = c15UID(r, class)
+	if p != nil && class == 1 {
+		p.logs = append(p.logs, id)
+	}
+	return id, false
+}
+
 // c15Trigger builds a trigger whose extension matches the upkeep type.
 func c15Trigger(r *Rng, uid ocr2keepers.UpkeepIdentifier) ocr2keepers.Trigger {
+	return c15TriggerP(r, uid, false)
+}
+
+// c15TriggerP: for a re-used upkeep the extension is never the all-zero one, so work ids stay distinct
+func c15TriggerP(r *Rng, uid ocr2keepers.UpkeepIdentifier, reused bool) ocr2keepers.Trigger {
+	ext := c15Ext
+	if reused {
+		ext = c15ExtNZ
+	}
 	t := ocr2keepers.Trigger{BlockNumber: ocr2keepers.BlockNumber(c15U64(r)), BlockHash: genHash(r)}
 	switch uint8(utg(uid)) {
 	case 0:
 	case 1:
-		t.LogTriggerExtension = c15Ext(r)
+		t.LogTriggerExtension = ext(r)
 	default:
 		if r.Bool() {
-			t.LogTriggerExtension = c15Ext(r)
+			t.LogTriggerExtension = ext(r)
 		}
 	}
 	return t
@@ -670,9 +727,11 @@ func c15Price(r *Rng) *big.Int {
 	return new(big.Int).SetUint64(r.U64() % 1e15)
 }
 
-func c15Result(r *Rng, class int) ocr2keepers.CheckResult {
-	uid := c15UID(r, class)
-	trig := c15Trigger(r, uid)
+func c15Result(r *Rng, class int) ocr2keepers.CheckResult { return c15ResultP(r, class, nil) }
+
+func c15ResultP(r *Rng, class int, pool *c15Pool) ocr2keepers.CheckResult {
+	uid, reused := pool.uid(r, class)
+	trig := c15TriggerP(r, uid, reused)
 	res := ocr2keepers.CheckResult{Eligible: true, UpkeepID: uid, Trigger: trig, WorkID: wg(uid, trig),
 		FastGasWei: c15Price(r), LinkNative: c15Price(r)}
 	switch r.Intn(5) {
@@ -713,8 +772,12 @@ func c15Class(r *Rng) int {
 }
 
 func c15Proposal(r *Rng, class int) ocr2keepers.CoordinatedBlockProposal {
-	uid := c15UID(r, class)
-	trig := c15Trigger(r, uid)
+	return c15ProposalP(r, class, nil)
+}
+
+func c15ProposalP(r *Rng, class int, pool *c15Pool) ocr2keepers.CoordinatedBlockProposal {
+	uid, reused := pool.uid(r, class)
+	trig := c15TriggerP(r, uid, reused)
 	return ocr2keepers.CoordinatedBlockProposal{UpkeepID: uid, Trigger: trig, WorkID: wg(uid, trig)}
 }
 
@@ -735,11 +798,13 @@ func c15Size(r *Rng, limit int) int {
 	return r.Range(1, 6)
 }
 
-func c15GenResults(r *Rng, n int) []ocr2keepers.CheckResult {
+func c15GenResults(r *Rng, n int) []ocr2keepers.CheckResult { return c15GenResultsP(r, n, &c15Pool{}) }
+
+func c15GenResultsP(r *Rng, n int, pool *c15Pool) []ocr2keepers.CheckResult {
 	out := make([]ocr2keepers.CheckResult, 0, n)
 	seen := map[string]bool{}
 	for len(out) < n {
-		res := c15Result(r, c15Class(r))
+		res := c15ResultP(r, c15Class(r), pool)
 		if seen[res.WorkID] {
 			continue
 		}
@@ -751,6 +816,10 @@ func c15GenResults(r *Rng, n int) []ocr2keepers.CheckResult {
 
 // c15Proposals: nc conditional-counting, nl log, no other-typed proposals
 func c15Proposals(r *Rng, nc, nl, no int) []ocr2keepers.CoordinatedBlockProposal {
+	return c15ProposalsP(r, nc, nl, no, &c15Pool{})
+}
+
+func c15ProposalsP(r *Rng, nc, nl, no int, pool *c15Pool) []ocr2keepers.CoordinatedBlockProposal {
 	var out []ocr2keepers.CoordinatedBlockProposal
 	for i := 0; i < nc; i++ {
 		c := 0
@@ -760,7 +829,7 @@ func c15Proposals(r *Rng, nc, nl, no int) []ocr2keepers.CoordinatedBlockProposal
 		out = append(out, c15Proposal(r, c))
 	}
 	for i := 0; i < nl; i++ {
-		out = append(out, c15Proposal(r, 1))
+		out = append(out, c15ProposalP(r, 1, pool))
 	}
 	for i := 0; i < no; i++ {
 		out = append(out, c15Proposal(r, 2))
@@ -801,15 +870,17 @@ func c15ValidObs(r *Rng) ocr2keepersv3.AutomationObservation {
 	if room := ocr2keepersv3.ObservationConditionalsProposalsLimit + ocr2keepersv3.ObservationLogRecoveryProposalsLimit - nc - nl; room > 0 && r.Chance(30) {
 		no = r.Range(1, room)
 	}
+	pool := &c15Pool{} // shared: a log upkeep may be performable and proposed (for another log) at once
 	return ocr2keepersv3.AutomationObservation{
-		Performable:     c15GenResults(r, c15Size(r, ocr2keepersv3.ObservationPerformablesLimit)),
-		UpkeepProposals: c15Proposals(r, nc, nl, no),
+		Performable:     c15GenResultsP(r, c15Size(r, ocr2keepersv3.ObservationPerformablesLimit), pool),
+		UpkeepProposals: c15ProposalsP(r, nc, nl, no, pool),
 		BlockHistory:    c15History(r, c15Size(r, ocr2keepersv3.ObservationBlockHistoryLimit)),
 	}
 }
 
 func c15ValidOutcome(r *Rng) ocr2keepersv3.AutomationOutcome {
-	o := ocr2keepersv3.AutomationOutcome{AgreedPerformables: c15GenResults(r, c15Size(r, ocr2keepersv3.OutcomeAgreedPerformablesLimit))}
+	pool := &c15Pool{} // shared by the performables and every round of proposals
+	o := ocr2keepersv3.AutomationOutcome{AgreedPerformables: c15GenResultsP(r, c15Size(r, ocr2keepersv3.OutcomeAgreedPerformablesLimit), pool)}
 	rounds := c15Size(r, ocr2keepersv3.OutcomeSurfacedProposalsRoundHistoryLimit)
 	seen := map[string]bool{}
 	for i := 0; i < rounds; i++ {
@@ -819,7 +890,7 @@ func c15ValidOutcome(r *Rng) ocr2keepersv3.AutomationOutcome {
 		}
 		round := make([]ocr2keepers.CoordinatedBlockProposal, 0, n)
 		for len(round) < n {
-			p := c15Proposal(r, c15Class(r))
+			p := c15ProposalP(r, c15Class(r), pool)
 			if seen[p.WorkID] {
 				continue
 			}
@@ -869,12 +940,13 @@ type c15Violation struct {
 // a smallish valid message with at least one performable / proposal of the
 // wanted class at a random position
 func c15SmallObs(r *Rng, class int) (ocr2keepersv3.AutomationObservation, int, int) {
+	pool := &c15Pool{}
 	o := ocr2keepersv3.AutomationObservation{
-		Performable:  c15GenResults(r, r.Range(0, 4)),
+		Performable:  c15GenResultsP(r, r.Range(0, 4), pool),
 		BlockHistory: c15History(r, r.Range(0, 5)),
 	}
 	nc, nl := r.Range(0, 3), r.Range(0, 3)
-	o.UpkeepProposals = c15Proposals(r, nc, nl, r.Intn(2))
+	o.UpkeepProposals = c15ProposalsP(r, nc, nl, r.Intn(2), pool)
 	pi := r.Intn(len(o.Performable) + 1)
 	res := c15Result(r, class)
 	o.Performable = append(o.Performable[:pi], append([]ocr2keepers.CheckResult{res}, o.Performable[pi:]...)...)
@@ -885,12 +957,13 @@ func c15SmallObs(r *Rng, class int) (ocr2keepersv3.AutomationObservation, int, i
 }
 
 func c15SmallOutcome(r *Rng, class int) (ocr2keepersv3.AutomationOutcome, int, int, int) {
-	o := ocr2keepersv3.AutomationOutcome{AgreedPerformables: c15GenResults(r, r.Range(0, 4))}
+	pool := &c15Pool{}
+	o := ocr2keepersv3.AutomationOutcome{AgreedPerformables: c15GenResultsP(r, r.Range(0, 4), pool)}
 	rounds := r.Range(1, 4)
 	for i := 0; i < rounds; i++ {
 		var round []ocr2keepers.CoordinatedBlockProposal
 		for k := r.Range(0, 3); k > 0; k-- {
-			round = append(round, c15Proposal(r, c15Class(r)))
+			round = append(round, c15ProposalP(r, c15Class(r), pool))
 		}
 		o.SurfacedProposals = append(o.SurfacedProposals, round)
 	}
@@ -922,12 +995,21 @@ func c15OutOfRange(r *Rng) *big.Int {
 // c15FlipExt breaks only the type rule: the extension is removed / added and the
 // work id regenerated for the new trigger, so the work-id rule still holds.
 func c15FlipExt(r *Rng, uid ocr2keepers.UpkeepIdentifier, t *ocr2keepers.Trigger, wid *string) {
-	if t.LogTriggerExtension != nil {
+	switch {
+	case t.LogTriggerExtension != nil:
 		t.LogTriggerExtension = nil
-	} else {
-		t.LogTriggerExtension = c15Ext(r)
+	case r.Chance(35): // present but empty: what "LogTriggerExtension":{} decodes to
+		t.LogTriggerExtension = &ocr2keepers.LogTriggerExtension{}
+	default:
+		t.LogTriggerExtension = c15ExtNZ(r)
 	}
 	*wid = wg(uid, *t)
+}
+
+// c15SiblingProposal: a proposal for another log of sib's upkeep that carries sib's work id
+func c15SiblingProposal(r *Rng, sib ocr2keepers.CheckResult) ocr2keepers.CoordinatedBlockProposal {
+	t := ocr2keepers.Trigger{BlockNumber: ocr2keepers.BlockNumber(c15U64(r)), BlockHash: genHash(r), LogTriggerExtension: c15ExtNZ(r)}
+	return ocr2keepers.CoordinatedBlockProposal{UpkeepID: sib.UpkeepID, Trigger: t, WorkID: sib.WorkID}
 }
 
 func c15WrongWID(r *Rng) string {
@@ -1057,7 +1139,15 @@ var c15Violations = func() []c15Violation {
 	})
 	add(func(r *Rng) c15Input {
 		o, _, qi := c15SmallObs(r, c15Class(r))
-		o.UpkeepProposals[qi].WorkID = c15WrongWID(r)
+		if r.Chance(40) {
+			// the work id of ANOTHER log of the same upkeep, which is present as a performable
+			sib := c15Result(r, 1)
+			at := r.Intn(len(o.Performable) + 1)
+			o.Performable = append(o.Performable[:at:at], append([]ocr2keepers.CheckResult{sib}, o.Performable[at:]...)...)
+			o.UpkeepProposals[qi] = c15SiblingProposal(r, sib)
+		} else {
+			o.UpkeepProposals[qi].WorkID = c15WrongWID(r)
+		}
 		return c15ObsIn(o, "wrongWorkIDProposal", r)
 	})
 	add(func(r *Rng) c15Input {
@@ -1141,7 +1231,14 @@ var c15Violations = func() []c15Violation {
 	})
 	add(func(r *Rng) c15Input {
 		o, _, ri, qi := c15SmallOutcome(r, c15Class(r))
-		o.SurfacedProposals[ri][qi].WorkID = c15WrongWID(r)
+		if r.Chance(40) {
+			sib := c15Result(r, 1)
+			at := r.Intn(len(o.AgreedPerformables) + 1)
+			o.AgreedPerformables = append(o.AgreedPerformables[:at:at], append([]ocr2keepers.CheckResult{sib}, o.AgreedPerformables[at:]...)...)
+			o.SurfacedProposals[ri][qi] = c15SiblingProposal(r, sib)
+		} else {
+			o.SurfacedProposals[ri][qi].WorkID = c15WrongWID(r)
+		}
 		return c15OutcomeIn(o, "wrongWorkIDProposal", r)
 	})
 	add(func(r *Rng) c15Input {
